@@ -174,7 +174,8 @@ def classify(diags, mp):
         props = set(r["props"]) if r else set()
         for s2 in spans:
             r2 = region_of(mp, s2["line_start"])
-            if r2 is not None and r2.get("kind") in ("fn-body", "loop-clause"):
+            # a clause that lives in a trait declaration also carries the tags of the implementing function
+            if r2 is not None and r is not None and r2.get("kind") in ("fn-body", "loop-clause") and r2.get("item") != r.get("item") and r.get("item", "").startswith("trait"):
                 props |= set(r2["props"])
         fails.append({"region": r, "rid": rid, "msg": msg, "line": line, "props": sorted(props),
                       "rendered": d.get("rendered", "")[:4000]})
